@@ -32,6 +32,11 @@ def configs(tier):
     C["switchgdd"] = s
     C["water_table"] = A.to_spec(A._b(crop="maize.2", win="w1s", word="dry", gw="0.8", soil="ClayLoam"))
     C["series_table"] = A.to_spec(A._b(crop="maize.2", win="w1", word="dry", gw="rising_v", soil="ClayLoam", dz="deep30"))
+    # a hand-built weather table with extreme records on simulated days (reference ET below the file reader's 0.1 mm floor, frost):
+    # a clean-up of such values may not land on the user's DataFrame
+    c = A._b(crop="maize.2", win="w2", word="normal")
+    c["dev"] = [[1, "Z"], [6, "Z"], [7, "L"], [11, "F"], [15, "T"], [370, "Z"]]
+    C["extreme_weather_records"] = A.to_spec(c)
     # user lists NOT in chronological order (observations / schedule rows): an initialisation that normalises them may not write half of
     # the result back onto the user's object
     for nm, g in (("unsorted_table_v", {"method": "Variable", "series": [[30, 0.5], [0, 2.4], [9999, 0.5]]}),
